@@ -384,21 +384,13 @@ class Path:
                 return True
         t0 = _t.time()
         quantified = [p for p in self.pc if has_quantifier(p)]
-        if quantified:
-            # quantified hypotheses make satisfiable queries slow (no model is found, the time limit is hit): first ask
-            # without them (a weakening: `unsat` is still conclusive), then give the full query a short budget only
-            s = z3.Solver()
-            s.set('timeout', self.explorer.feas_timeout_ms)
-            for p in self.pc:
-                if not has_quantifier(p):
-                    s.add(p)
-            s.add(c)
-            if s.check() == z3.unsat:
-                return False
         s = z3.Solver()
-        s.set('timeout', self.explorer.feas_timeout_ms if not quantified else 300)
+        s.set('timeout', self.explorer.feas_timeout_ms)
         for p in self.pc:
-            s.add(p)
+            # quantified hypotheses make satisfiable queries run into the time limit (no model is found): inline
+            # queries are asked without them (a weakening: `unsat` is still conclusive, see _abstract)
+            if not quantified or not has_quantifier(p):
+                s.add(p)
         s.add(c)
         r = s.check()
         dt = _t.time() - t0
@@ -430,24 +422,13 @@ class Path:
         if ca is not None and self._abs_query(z3.Not(ca)) == z3.unsat:
             r = True
         else:
-            quantified = any(has_quantifier(p) for p in self.pc)
-            if quantified:
-                # as in feasible(): without the quantified hypotheses first (entailment from fewer hypotheses is still
-                # entailment), then the full query with a short budget (a non-entailed goal would run into the limit)
-                s = z3.Solver()
-                s.set('timeout', 1000)
-                for p in self.pc:
-                    if not has_quantifier(p):
-                        s.add(p)
-                s.add(z3.Not(c))
-                r = s.check() == z3.unsat
-            if not r:
-                s = z3.Solver()
-                s.set('timeout', 1000 if not quantified else 250)
-                for p in self.pc:
+            s = z3.Solver()
+            s.set('timeout', 1000)
+            for p in self.pc:
+                if not has_quantifier(p):  # as in feasible(): entailment from fewer hypotheses is still entailment
                     s.add(p)
-                s.add(z3.Not(c))
-                r = s.check() == z3.unsat
+            s.add(z3.Not(c))
+            r = s.check() == z3.unsat
         cache[key] = r
         return r
 
